@@ -26,7 +26,8 @@ type churnCfg struct {
 	RemoveBy string `json:"remove_by"` // reload | stop
 	Enc      bool   `json:"enc"`
 	Comp     bool   `json:"comp"`
-	Conns    int    `json:"conns"` // connections per endpoint and phase
+	Shared   bool   `json:"shared"` // tcpmux: a fourth proxy serves the siblings' domain without routeByHTTPUser
+	Conns    int    `json:"conns"`  // connections per endpoint and phase
 	Seed     uint64 `json:"seed"`
 }
 
@@ -40,6 +41,7 @@ func churnCases(thorough bool, rng *rand.Rand) []*caseCfg {
 		mk(2, "tcpmux", "stop", true, true, 102),
 		mk(1, "https", "reload", false, true, 103),
 	}
+	out[1].Churn.Shared = true
 	if thorough {
 		for i := 0; i < 12; i++ {
 			cc := mk([]int{0, 2}[rng.Intn(2)], "tcpmux", []string{"reload", "stop"}[rng.Intn(2)], rng.Intn(2) == 0, rng.Intn(2) == 0, 200+uint64(i))
@@ -53,7 +55,11 @@ func churnCases(thorough bool, rng *rand.Rand) []*caseCfg {
 			if cc.Server >= 2 && cc.A.Proto == "kcp" {
 				cc.A.Proto = "quic"
 			}
+			if cc.Churn.RemoveBy == "stop" && cc.A.Proto == "kcp" {
+				cc.A.Proto = "tcp" // frps learns of a stopped kcp client only by heartbeat timeout (90 s)
+			}
 			cc.Churn.Conns = 2 + rng.Intn(4)
+			cc.Churn.Shared = cc.Churn.Kind == "tcpmux" && rng.Intn(2) == 0
 			out = append(out, cc)
 		}
 	}
@@ -69,7 +75,7 @@ func runChurnCase(c *h.Case, cc *caseCfg, sv *srvInfo) {
 	stunPort := pa.Get()
 
 	mk := func(i int, tag, domain, host, user string) (*proxyRT, string, error) {
-		p := &proxyCfg{Kind: ch.Kind, Enc: ch.Enc, Comp: ch.Comp}
+		p := &proxyCfg{Kind: ch.Kind, Enc: ch.Enc, Comp: ch.Comp, RouteUser: user}
 		px := &proxyRT{cs: cs, idx: i, cfg: p, name: pfx + "." + tag, domain: domain, connectHost: host, routeUser: user, reliable: cc.A.Proto != "kcp"}
 		ports := pa.Block(2)
 		be, err := newBackend(cs, px, fmt.Sprintf("B%d.%s", c.Idx, tag), ports[0])
@@ -93,9 +99,6 @@ func runChurnCase(c *h.Case, cc *caseCfg, sv *srvInfo) {
 		}
 		be.start()
 		text := proxyTOML(px.name, p, ports[0], ports[1], domain)
-		if user != "" {
-			text += fmt.Sprintf("routeByHTTPUser = %q\n", user)
-		}
 		cs.pxs = append(cs.pxs, px)
 		return px, text, nil
 	}
@@ -116,6 +119,15 @@ func runChurnCase(c *h.Case, cc *caseCfg, sv *srvInfo) {
 	if err == nil {
 		W, wT, err = mk(2, "wild", "*."+parent, "w."+parent, "")
 	}
+	// the siblings' domain is also served by a proxy without routeByHTTPUser: every other proxy user (and none) is its
+	var S *proxyRT
+	var sT string
+	if err == nil && ch.Shared && ch.Kind == "tcpmux" {
+		S, sT, err = mk(4, "shared", "db."+parent, "db."+parent, "")
+		if err == nil {
+			A.sharedPx, B.sharedPx = S, S
+		}
+	}
 	if err != nil {
 		run.Inconclusive("backend listen failed")
 		return
@@ -125,9 +137,9 @@ func runChurnCase(c *h.Case, cc *caseCfg, sv *srvInfo) {
 	}
 
 	common := commonTOML(sv, cc.A, stunPort)
-	mainText := common + bT + wT
+	mainText := common + bT + wT + sT
 	if ch.RemoveBy == "reload" {
-		mainText = common + aT + bT + wT
+		mainText = common + aT + bT + wT + sT
 	}
 	c.Data["frpc_main"], c.Data["frpc_alice"] = mainText, common+aT
 	cm, psAll, vs, err := h.LoadClientConfig(prop, mainText)
@@ -143,6 +155,9 @@ func runChurnCase(c *h.Case, cc *caseCfg, sv *srvInfo) {
 	}
 	defer cli.Close()
 	names := []string{B.name, W.name}
+	if S != nil {
+		names = append(names, S.name)
+	}
 	if ch.RemoveBy == "reload" {
 		names = append(names, A.name)
 	}
@@ -180,6 +195,7 @@ func runChurnCase(c *h.Case, cc *caseCfg, sv *srvInfo) {
 		mayRefuse    bool
 		afterRemoval bool
 		afterDup     bool
+		user         string // proxy user sent instead of the endpoint's own route user
 	}
 	verify := func(phase string, targets []target) {
 		var wg sync.WaitGroup
@@ -187,7 +203,7 @@ func runChurnCase(c *h.Case, cc *caseCfg, sv *srvInfo) {
 			for k := 0; k < ch.Conns; k++ {
 				cfg := &connCfg{Script: []string{"duplex", "downclose", "upclose", "idle"}[(k+planID)%4], Closer: []string{"U", "B"}[k%2],
 					NUp: rng.Int63n(40000), NDown: rng.Int63n(40000), ClsUp: rng.Intn(numClasses), ClsDown: rng.Intn(numClasses),
-					ChunkUp: chunks[2+rng.Intn(5)], ChunkDown: chunks[2+rng.Intn(5)], DelayMs: rng.Intn(10), SeedUp: rng.Uint64(), SeedDown: rng.Uint64()}
+					ChunkUp: chunks[2+rng.Intn(5)], ChunkDown: chunks[2+rng.Intn(5)], DelayMs: rng.Intn(10), SeedUp: rng.Uint64(), SeedDown: rng.Uint64(), ConnectUser: t.user}
 				switch cfg.Script {
 				case "downclose":
 					cfg.NUp = 0
@@ -232,7 +248,15 @@ func runChurnCase(c *h.Case, cc *caseCfg, sv *srvInfo) {
 		return false
 	}
 
-	verify("before", []target{{px: A}, {px: B}, {px: W}})
+	// with(ts): the same targets plus, when the domain has a shared route, connections without a proxy user and with
+	// an unknown proxy user, both of which belong to the shared proxy
+	with := func(ts []target, dup, removal bool) []target {
+		if S != nil {
+			ts = append(ts, target{px: S, afterDup: dup, afterRemoval: removal}, target{px: S, user: "carol", afterDup: dup, afterRemoval: removal})
+		}
+		return ts
+	}
+	verify("before", with([]target{{px: A}, {px: B}, {px: W}}, false, false))
 	if c.Violations() > 0 {
 		return
 	}
@@ -274,7 +298,7 @@ func runChurnCase(c *h.Case, cc *caseCfg, sv *srvInfo) {
 			run.Inconclusive("duplicate registration neither refused nor accepted within 30 s")
 			return
 		}
-		verify(fmt.Sprintf("dup%d", attempt), []target{{px: A, afterDup: true}, {px: B, afterDup: true}, {px: W, afterDup: true}})
+		verify(fmt.Sprintf("dup%d", attempt), with([]target{{px: A, afterDup: true}, {px: B, afterDup: true}, {px: W, afterDup: true}}, true, false))
 		if c.Violations() > 0 {
 			return
 		}
@@ -314,7 +338,11 @@ func runChurnCase(c *h.Case, cc *caseCfg, sv *srvInfo) {
 		return
 	}
 	run.Count("sibling_routes_removed", 1)
-	verify("removed", []target{{px: B, afterRemoval: true}, {px: W, afterRemoval: true}, {px: A, alt: W, mayRefuse: true, afterRemoval: true}})
+	aliceNow := W // alice's endpoint falls to the wildcard route, or to the shared route of her own domain if there is one
+	if S != nil {
+		aliceNow = S
+	}
+	verify("removed", with([]target{{px: B, afterRemoval: true}, {px: W, afterRemoval: true}, {px: A, alt: aliceNow, mayRefuse: true, afterRemoval: true}}, false, true))
 	if c.Violations() > 0 {
 		return
 	}
@@ -332,7 +360,7 @@ func runChurnCase(c *h.Case, cc *caseCfg, sv *srvInfo) {
 	} else if !startAlice() {
 		return
 	}
-	verify("readded", []target{{px: A, afterRemoval: true}, {px: B, afterRemoval: true}, {px: W, afterRemoval: true}})
+	verify("readded", with([]target{{px: A, afterRemoval: true}, {px: B, afterRemoval: true}, {px: W, afterRemoval: true}}, false, true))
 	run.Count("proxies", 3)
 	run.Distinct(cc.signature())
 }
